@@ -165,10 +165,9 @@ func main() {
 	for _, app := range cfg.AppTests {
 		extra["apps/"+app+"/verif_mon_test.go"] = filepath.Join(verifRoot, "harness", "apptests_src", "common_test.go.src")
 	}
-	if id == "C14" {
-		// extractions made while package utils is still initialising its variables
-		extra["rtcm/utils/verif_init_probe.go"] = filepath.Join(verifRoot, "harness", "vhook_src", "utils_init_probe.go.src")
-	}
+	// extractions made while package utils is still initialising its variables (read by
+	// the C14 monitor; the monitors are one program, so the file is always there)
+	extra["rtcm/utils/verif_init_probe.go"] = filepath.Join(verifRoot, "harness", "vhook_src", "utils_init_probe.go.src")
 	ov, err := inject.Build(repoDir, filepath.Join(work, "ov"), filepath.Join(verifRoot, "harness", "vhook_src", "verifhook.go.src"), extra, true)
 	if err != nil {
 		fmt.Println(err)
